@@ -18,6 +18,7 @@ import (
 	"testing"
 	"time"
 
+	"github.com/olric-data/olric/internal/cluster/partitions"
 	"github.com/olric-data/olric/internal/verifhook"
 	"github.com/olric-data/olric/internal/zzverif/vcommon"
 	"pgregory.net/rapid"
@@ -36,7 +37,7 @@ func genC07Retry(t *rapid.T) *c07RetryCase {
 	c := &c07RetryCase{
 		Op:            rapid.SampledFrom([]string{"incr", "decr", "incrbyfloat", "getput"}).Draw(t, "op"),
 		Path:          rapid.SampledFrom([]int{pOtherEmb, pOtherRaw}).Draw(t, "path"),
-		ReadTimeoutMs: rapid.SampledFrom([]int64{200, 300}).Draw(t, "readTimeout"),
+		ReadTimeoutMs: rapid.SampledFrom([]int64{400, 600}).Draw(t, "readTimeout"),
 		Replicas:      rapid.IntRange(1, 2).Draw(t, "replicas"),
 	}
 	c.StallMs = rapid.SampledFrom([]int64{0, c.ReadTimeoutMs + 150, c.ReadTimeoutMs + 150, 2*c.ReadTimeoutMs + 150}).Draw(t, "stall")
@@ -85,6 +86,27 @@ func runC07Retry(c *c07RetryCase) (v *vcommon.Violation, nontrivial, inconclusiv
 		})
 	}
 	pc := &pathClient{cl: cl, dmap: name, path: c.Path}
+	// The shortened read timeout also governs the members' own traffic (routing pushes, pings); on a busy machine
+	// that can unsettle the cluster itself. The scenario only counts when the forwarding member sees the prepared
+	// value and both members agree on who owns the key, before and after.
+	agree := func() bool {
+		if !cl.stableNow() {
+			return false
+		}
+		first := ""
+		for i, m := range cl.live() {
+			o := m.db.primary.PartitionByHKey(partitions.HKey(name, key)).Owner().String()
+			if i == 0 {
+				first = o
+			} else if o != first {
+				return false
+			}
+		}
+		return first == owner.name
+	}
+	if g0 := pc.get(ctx, key); g0.Err != "" || string(g0.Val) != initial || !agree() {
+		return nil, false, true
+	}
 	var r vRes
 	switch c.Op {
 	case "incr":
@@ -100,7 +122,7 @@ func runC07Retry(c *c07RetryCase) (v *vcommon.Violation, nontrivial, inconclusiv
 	time.Sleep(time.Duration(c.StallMs+50) * time.Millisecond)
 	verifhook.Set("atomic.afterRead", nil)
 	final := prep.get(ctx, key)
-	if final.Err != "" {
+	if final.Err != "" || !agree() {
 		return nil, false, true
 	}
 	nontrivial = c.StallMs > c.ReadTimeoutMs && stalled
